@@ -336,3 +336,46 @@ func trunc(s string, n int) string {
 	}
 	return s
 }
+
+
+// FirstDiffUnordered is FirstDiff with object members matched by key.
+func (j *J) FirstDiffUnordered(o *J, path string) string {
+	if j == nil {
+		j = JN()
+	}
+	if o == nil {
+		o = JN()
+	}
+	if j.Kind != o.Kind {
+		return path + ": " + trunc(j.String(), 80) + " vs " + trunc(o.String(), 80)
+	}
+	switch j.Kind {
+	case JNum, JStr:
+		if j.Raw != o.Raw {
+			return path + ": " + trunc(j.String(), 80) + " vs " + trunc(o.String(), 80)
+		}
+	case JArr:
+		if len(j.Items) != len(o.Items) {
+			return path + ": array length " + strconv.Itoa(len(j.Items)) + " vs " + strconv.Itoa(len(o.Items))
+		}
+		for i := range j.Items {
+			if d := j.Items[i].FirstDiffUnordered(o.Items[i], path+"["+strconv.Itoa(i)+"]"); d != "" {
+				return d
+			}
+		}
+	case JObj:
+		if len(j.Members) != len(o.Members) {
+			return path + ": members " + memberNames(j) + " vs " + memberNames(o)
+		}
+		for _, m := range j.Members {
+			v := o.Get(m.Key)
+			if v == nil {
+				return path + ": members " + memberNames(j) + " vs " + memberNames(o)
+			}
+			if d := m.Val.FirstDiffUnordered(v, path+"."+m.Key); d != "" {
+				return d
+			}
+		}
+	}
+	return ""
+}
